@@ -10,7 +10,6 @@ use super::context::{
     Config, Error, Node, ValidationContext, ValidationState,
 };
 use super::utilities::{make_ede, map_dname, ttl_for_sig};
-use crate::base::cmp::CanonicalOrd;
 use crate::base::iana::ExtendedErrorCode;
 use crate::base::iana::class::Class;
 use crate::base::name::ToName;
@@ -603,9 +602,10 @@ impl Group {
         //   equal to the time listed in the RRSIG RR's Expiration field.
         // - The validator's notion of the current time MUST be greater than or
         //   equal to the time listed in the RRSIG RR's Inception field.
-        if ts_now.canonical_gt(&rrsig.expiration())
-            || ts_now.canonical_lt(&rrsig.inception())
-        {
+        //
+        // RFC 4034, Section 3.1.5: all comparisons involving these fields
+        // MUST use serial number arithmetic.
+        if !(ts_now <= rrsig.expiration() && ts_now >= rrsig.inception()) {
             return false;
         }
 
